@@ -616,7 +616,8 @@ class C06(Prop):
                   "(assign_svalue, assign_svalue_no_free, free_svalue with recursive release, push/pop, allocation, "
                   "mapping nodes, string counters with saturation and the in-place decisions that read them, free_call / free_sentence / "
                   "dealloc_funp, destruct_object / destruct2, call_out() including callbacks that raise an error or destruct their "
-                  "object, input_to / get_char, program_t.ref with clone / inherit / blueprint references (reference_prog, free_prog, "
+                  "object, input_to / get_char, program_t.ref with clone / inherit / blueprint references and func_ref with the function "
+                  "pointers compiled into a program, made by own or inherited code (reference_prog, free_prog, make_functional_funp, "
                   "deallocate_program), replace_programs(), reclaim_objects(), assignment to array / buffer range lvalues in both forms) for all sequences of primitives: counter = number of holders, nothing "
                   "freed while held, no dangling pointer anywhere, unreferenced values deallocated, count and size statistics exact, the "
                   "oracle's declarative collection step is the identity on every model state; tied to the "
@@ -645,7 +646,7 @@ class C06(Prop):
             "programs, replace_program() over four variable layouts, reclaim_objects() with destructed objects in variables / arrays / "
             "classes / mapping keys and values / function pointer arguments, a callback that installs a new input_to, "
             "assignment to array / buffer range lvalues (temporary / shared right-hand side, same / other length, statement / value form), "
-            "input_to refused while one is pending, "
+            "input_to refused while one is pending, function pointers compiled into the object's own or the inherited program (func_ref of both), "
             "destruct + deferred cleanup, errors thrown under live frames, 64 efun/operator groups with results dropped (every "
             "lvalue-assignment form, operators and efuns taken from the opcode histogram), an error "
             "injected at the k-th instruction (or at every instruction in turn) of 86 efun groups and of restore_variable, "
@@ -665,8 +666,10 @@ class C06(Prop):
                    "(same state after every operation) is not proved, the statistics clauses only for num_arrays / num_mappings / "
                    "tot_alloc_object / total_array_size / total_mapping_nodes (string and function-name counters are compared); the oracle is exercised on the model's "
                    "traces and on corrupted ones",
-                   "func_ref of programs is not modelled as a counter (only its width is an obligation); swapping, load_binary "
-                   "and total_num_prog_blocks are not modelled; replaceable() is not called",
+                   "func_ref of programs is a cell of the model (function pointers made by an object's own and by inherited code), but the "
+                   "case 'program kept alive by func_ref after its last reference' is not reached (unit mode cannot make such pointers, "
+                   "lpc mode cannot unload); the copying path of f_bind is only tied textually (the harness master denies binding); "
+                   "swapping, load_binary and total_num_prog_blocks are not modelled; replaceable() is not called",
                    "one interactive user (create_test_interactive of the repository), input_to / get_char with flag 0 only",
                    "error injection (hook H2) happens at instruction dispatch only: an error raised in the middle of an efun is "
                    "covered only where LPC code can provoke it (the 25 'builder aborted half-way' groups); groups that build a cycle "
